@@ -102,13 +102,9 @@ def run_equivalent_one(eq):
     try:
         if not apply_pairs(eq, d):
             return eq['id'], None
-        alarms = {}
-        for i in range(1, 19):
-            p = 'C%02d' % i
-            r = subprocess.run([os.path.join(HERE, 'check'), p, '--repo', d, '--no-evidence'], capture_output=True, text=True)
-            if r.returncode != 0:
-                alarms[p] = [l.strip()[:260] for l in r.stdout.splitlines() if re.match(r'^\s+(FAIL|ANCHOR) ', l)][:4]
-        return eq['id'], alarms
+        sys.path.insert(0, os.path.join(HERE, 'tools'))
+        from seeded import run_all_checks
+        return eq['id'], run_all_checks(d)
     finally:
         shutil.rmtree(d, ignore_errors=True)
 
